@@ -8,7 +8,7 @@ from __future__ import annotations
 
 from .. import nf
 from ..model import AnalysisError
-from ..values import Num
+from ..values import ExtObj, Num
 from .common import GAS, OIL, POSITIVE, WATER, cmp_decisions, only, returns, run
 
 LEVEL = "proof"
@@ -26,7 +26,11 @@ def _arms(ctx, qual, opaque=()):
             raise AnalysisError(f"{qual}: non-numeric return value")
         if len(ds) == 1:
             k, c, d = ds[0]
-            out[(k, c)] = (p.value.nf, d)
+            if (k, c) in out and out[(k, c)][0] != p.value.nf:
+                # the same pressure predicate leads to two different results: some other decision splits the arm
+                out[((k, c), ("split", len(out)))] = (p.value.nf, d + " & " + " & ".join(("" if c2 else "not ") + d2 for _k2, c2, d2 in p.decisions if d2 != d))
+            else:
+                out[(k, c)] = (p.value.nf, d)
         else:  # this function and an inlined callee disagree on the predicate
             out[tuple((k, c) for k, c, _ in ds)] = (p.value.nf, " & ".join(("" if c else "not ") + d for _k, c, d in ds))
     return out
@@ -141,4 +145,22 @@ def check(ctx):
                     "below the bubble point the result is (Bg - dBo/dRs(Rs(p))) * dRs/dp / Bo with the exact derivatives of the parents",
                     signature=nf.show(d, 300), residual=nf.show(d, 700), value=nf.show(val, 400),
                 )
+    # ---- C13-f a pressure *table* gets the same derivative as its entries one by one: whatever branch the functions
+    # take for a non-scalar pressure returns one of the terms the scalar evaluation returns (no finite-difference
+    # approximation of the parent slipped in for arrays)
+    for qd, opq in ((WATER + "b_water_McCain_dp", set()), (OIL + "dgor_dpressure_Standing", set()), (OIL + "db_o_dgor_Standing", set())):
+        fd = P.func(qd)
+        scal = {nf.key(p_.value.nf) for p_ in returns(run(ctx, qd, opaque=opq)) if isinstance(p_.value, Num)}
+        arr = [p_ for p_ in returns(run(ctx, qd, opaque=opq, array_mode=True))]
+        odd = [p_ for p_ in arr if not isinstance(p_.value, Num) or nf.key(p_.value.nf) not in scal]
+        # masked result buffers are the business of C11; only a different *term* is reported here
+        odd = [p_ for p_ in odd if isinstance(p_.value, (Num, ExtObj))]
+        ctx.check(
+            not odd, "C13-f", qd + ":array evaluation", fd.where(),
+            "for a non-scalar pressure the function returns the same term as for a scalar (entry by entry the exact derivative of the parent)",
+            signature="array branch differs", array_only=[nf.show(p_.value.nf, 200) if isinstance(p_.value, Num) else str(p_.value)[:200] for p_ in odd[:2]],
+        )
+    from .dtypes import check_vectorize
+
+    check_vectorize(ctx, "C13-g", ["bluebonnet.fluids.oil", "bluebonnet.fluids.water"])
     ctx.floor("C13", len(ctx.obligs), 8, "derivative obligations")
